@@ -71,3 +71,50 @@ Theorem late_event_ignored : ∀ w n q p o oun fl, WInv w → w_queue w !! n = S
   w_cloudlog (pstep w (PEvent n o oun fl)).1 = w_cloudlog w ∧ w_pods (pstep w (PEvent n o oun fl)).1 = w_pods w.
 Proof. exact late_event_ignored_l. Qed.
 Print Assumptions late_event_ignored.
+
+(** non-vacuity: a concrete well-formed history (one pool 10.100.0.2~10.100.0.9, statefulset pod ns1/web-0
+    created, seen by the informer, filtered and bound on node1) whose final world has a live bound pod,
+    holding 10.100.0.2 under the key "sts_ns1_web_web-0" for its UID *)
+Example live_bound_owned_nonvacuous : ∃ nodes ops, wf_hist (world0 false nodes) ops ∧
+  let w := prun (world0 false nodes) ops in
+  ∃ k p, w_pods w !! k = Some p ∧ live_bound p ∧ pd_ips p = [174325762] ∧
+         ∃ e, i_alloc (w_ipam w) !! 174325762 = Some e ∧ e_key e = L "sts_ns1_web_web-0" ∧ e_uid e = L "uA".
+Proof. exists nodes1, h_one. exact h_one_live. Qed.
+Print Assumptions live_bound_owned_nonvacuous.
+
+(** ** defects of the pinned commit, repaired by fix: commits in the Go code.
+    [prun_fl f1 f2 f13] runs the model with the repair F1 (a pod event of an incarnation other than the one
+    the IP is stored for is ignored), F2 (Bind refuses when the informer's pod is another incarnation than
+    the one being bound) or F13 (Bind's stored-UID guard covers ALL IPs of the key) switched off;
+    [prun_fl true true true = prun].  [violates_c04 w]: some live bound pod of [w] has an IP in its binding
+    annotation that is not allocated under its key.  Each history is well-formed and none of its steps is
+    stuck (Proofs/PluginWitness.v: [h_f1], [h_f2], [h_f13], [witnesses_not_stuck]). *)
+
+(** F1: the late delete event of the earlier incarnation A releases the IP of the live pod B *)
+Theorem live_bound_owned_refuted_late_event_old : ∃ nodes ops, wf_hist (world0 false nodes) ops ∧
+  violates_c04 (prun_fl false true true (world0 false nodes) ops).
+Proof. exact live_bound_owned_refuted_late_event. Qed.
+Print Assumptions live_bound_owned_refuted_late_event_old.
+
+(** F2: Bind of B on the informer's stale object of A stores A's UID with B's IP; A's delete event then
+    passes the F1 test and releases it *)
+Theorem live_bound_owned_refuted_stale_lister_old : ∃ nodes ops, wf_hist (world0 false nodes) ops ∧
+  violates_c04 (prun_fl true false true (world0 false nodes) ops).
+Proof. exact live_bound_owned_refuted_stale_lister. Qed.
+Print Assumptions live_bound_owned_refuted_stale_lister_old.
+
+(** F13: B is bound while the key still holds A's IP (stored for A's UID); the resync item of A's IP finds
+    A "not running" and releases every IP of the key, B's included *)
+Theorem live_bound_owned_refuted_mixed_uid_old : ∃ nodes ops, wf_hist (world0 false nodes) ops ∧
+  violates_c04 (prun_fl true true false (world0 false nodes) ops).
+Proof. exact live_bound_owned_refuted_mixed_uid. Qed.
+Print Assumptions live_bound_owned_refuted_mixed_uid_old.
+
+(** remark: with the repairs in place no well-formed history violates - in particular not the witnesses *)
+Theorem witnesses_harmless_now :
+  (∀ provider nodes ops, wf_hist (world0 provider nodes) ops →
+     ¬ violates_c04 (prun (world0 provider nodes) ops) ∧ ¬ violates_c04 (prun_fl true true true (world0 provider nodes) ops)) ∧
+  ¬ violates_c04 (prun (world0 false nodes1) h_f1) ∧ ¬ violates_c04 (prun (world0 false nodes1) h_f1c) ∧
+  ¬ violates_c04 (prun (world0 false nodes1) h_f2) ∧ ¬ violates_c04 (prun (world0 false nodes1) h_f13).
+Proof. exact (conj wf_hist_harmless witnesses_harmless). Qed.
+Print Assumptions witnesses_harmless_now.
